@@ -341,6 +341,59 @@ pub fn run(tier: Tier) {
                 }
             }
         }
+        // a computed string that equals a default symbol of the language ("read", "admin", ...) is that string
+        let defaults: Vec<(&str, Vec<ROp>, &str)> = vec![("re+ad", cat("re", "ad"), "read"), ("ad+min", cat("ad", "min"), "admin"), ("+user", cat("", "user"), "user"), ("wri+te", cat("wri", "te"), "write")];
+        for op in binaries() {
+            for (ln, l, lit) in &defaults {
+                for (rn, r, lit2) in &defaults {
+                    let mut rops = l.clone();
+                    rops.extend(r.clone());
+                    rops.push(ROp::Bin(op.clone()));
+                    cells.push(Cell { name: format!("({ln}) {op:?} ({rn})"), class: format!("computed-default-symbol/{op:?}"), rops });
+                    let _ = lit2;
+                }
+                for other in ["read", "admin", "user", "write", "rea"] {
+                    let mut rops = l.clone();
+                    rops.push(ROp::Val(V::Str(other.into())));
+                    rops.push(ROp::Bin(op.clone()));
+                    cells.push(Cell { name: format!("({ln}) {op:?} \"{other}\""), class: format!("computed-default-symbol-vs-literal/{op:?}"), rops });
+                    let mut rops = vec![ROp::Val(V::Str(other.into()))];
+                    rops.extend(l.clone());
+                    rops.push(ROp::Bin(op.clone()));
+                    cells.push(Cell { name: format!("\"{other}\" {op:?} ({ln})"), class: format!("literal-vs-computed-default-symbol/{op:?}"), rops });
+                    let _ = lit;
+                }
+            }
+        }
+        // closures one after the other (and inside the lazy operand of && / ||) that use the same parameter name:
+        // each application has its own scope, whether or not the previous one stopped early
+        {
+            use b::Binary as B;
+            let arr = |v: Vec<i64>| ROp::Val(V::Array(v.into_iter().map(V::Int).collect()));
+            let clo = |param: &str, k: i64| ROp::Closure(vec![param.to_string()], vec![ROp::Var(param.to_string()), ROp::Val(V::Int(k)), ROp::Bin(B::HeterogeneousEqual)]);
+            for first_op in [B::Any, B::All] {
+                for second_op in [B::Any, B::All] {
+                    for k1 in [1i64, 2, 3, 9] {
+                        for k2 in [3i64, 4, 9] {
+                            for lazy in [B::LazyAnd, B::LazyOr, B::And, B::Or] {
+                                let second = vec![arr(vec![3, 4]), clo("p", k2), ROp::Bin(second_op.clone())];
+                                let mut rops = vec![arr(vec![1, 2, 3]), clo("p", k1), ROp::Bin(first_op.clone())];
+                                if matches!(lazy, B::LazyAnd | B::LazyOr) {
+                                    rops.push(ROp::Closure(vec![], second.clone()));
+                                } else {
+                                    rops.extend(second.clone());
+                                }
+                                rops.push(ROp::Bin(lazy.clone()));
+                                cells.push(Cell { name: format!("[1,2,3].{first_op:?}($p -> $p == {k1}) {lazy:?} [3,4].{second_op:?}($p -> $p == {k2})"), class: format!("same-parameter-name-in-successive-closures/{first_op:?}/{lazy:?}"), rops });
+                            }
+                            // the parameter is not visible after the closure
+                            let rops = vec![arr(vec![1, 2, 3]), clo("p", k1), ROp::Bin(first_op.clone()), ROp::Closure(vec![], vec![ROp::Var("p".into()), ROp::Val(V::Int(k2)), ROp::Bin(B::HeterogeneousEqual)]), ROp::Bin(B::LazyAnd)];
+                            cells.push(Cell { name: format!("[1,2,3].{first_op:?}($p -> $p == {k1}) && $p == {k2}"), class: format!("closure-parameter-used-after-the-closure/{first_op:?}"), rops });
+                        }
+                    }
+                }
+            }
+        }
         for u in unaries() {
             for (ln, l) in &computed {
                 let mut rops = l.clone();
